@@ -63,12 +63,47 @@ def isomers(skel):
     return _cache[skel]
 
 
+def _fused_alkene(rng):
+    """bicyclic alkene whose double bond is the fusion bond of two rings of 4..11 atoms (ring sizes on both sides of every
+    'small ring => cis' threshold), with a few substituents that break the symmetry"""
+    from rdkit import Chem
+
+    a, b = rng.randint(4, 11), rng.randint(4, 11)
+    rw = Chem.RWMol()
+    x, y = rw.AddAtom(Chem.Atom(6)), rw.AddAtom(Chem.Atom(6))
+    rw.AddBond(x, y, Chem.BondType.DOUBLE)
+    chain_atoms = []
+    for size in (a, b):
+        prev = x
+        for _ in range(size - 2):
+            c = rw.AddAtom(Chem.Atom(6))
+            rw.AddBond(prev, c, Chem.BondType.SINGLE)
+            chain_atoms.append(c)
+            prev = c
+        rw.AddBond(prev, y, Chem.BondType.SINGLE)
+    for c in rng.sample(chain_atoms, min(len(chain_atoms), rng.randint(0, 2))):
+        s = rw.AddAtom(Chem.Atom(rng.choice([6, 9, 8, 17])))
+        rw.AddBond(c, s, Chem.BondType.SINGLE)
+    m = rw.GetMol()
+    Chem.SanitizeMol(m)
+    return Chem.MolToSmiles(m)
+
+
 def gen_cases(ctx):
     rng = ctx.rng
     n = ctx.n(7200, 90000)
     kinds = ["renumber", "respell", "both"]
     for i in range(n):
         fam = i % 8
+        if fam == 3 and (i // 8) % 3 == 0:  # double bond shared by two rings of 4..11 atoms
+            from .. import molgen
+
+            skel = _fused_alkene(rng)
+            iso = molgen.stereoisomers(skel, rng, max_isomers=4)
+            if not iso:
+                continue
+            yield {"kind": "same", "smiles": iso[rng.randrange(len(iso))], "variant": kinds[(i // 8) % 3], "opt": (i // 24) % 8, "vseed": rng.randrange(1 << 30), "fused_alkene": True}
+            continue
         if fam == 4:  # random molecule (rings 3..12, fused / spiro / bridged, many centres, N / P / S lone-pair centres)
             from .. import molgen
 
